@@ -33,9 +33,9 @@ macro_rules! wrap {
 
 wrap!(leg_c01, "C01", c01, ["data", "state", "lencode"]);
 wrap!(leg_c01_bmap, "C01", c01, ["bmap"]);
-wrap!(leg_c02, "C02", c02, ["random", "header", "body", "backends"]);
-wrap!(leg_c04, "C04", c04, ["roundtrip", "sweep", "canonical"]);
-wrap!(leg_c05, "C05", c05, ["random", "sweep", "lengths"]);
+wrap!(leg_c02, "C02", c02, ["random", "header", "body", "backends", "adjacent"]);
+wrap!(leg_c04, "C04", c04, ["roundtrip", "sweep", "canonical", "canonsweep"]);
+wrap!(leg_c05, "C05", c05, ["random", "sweep", "pairsweep", "lengths"]);
 wrap!(leg_c06, "C06", c06, ["binary", "slices", "generated"]);
 wrap!(leg_c14, "C14", c14, ["buffers"]);
 
@@ -275,13 +275,24 @@ pub fn race(api: &dyn GlobalApi, seed: u64) -> i32 {
     // inputs are prepared without touching the library
     let mut r = gens::Xs::new(seed);
     let mut jobs = Vec::new();
+    // focus modes: a race on ONE dispatch point needs several threads to hit that point first.
+    // mode 0: mixed operations; 1: every thread compares (one 32-byte or 64-byte body class);
+    // 2: every thread finalizes (one bucket count); 3: every thread parses / formats
+    let mode = seed % 4;
+    let focus_variant = [1usize, 3, 0, 2, 4][(seed / 4 % 5) as usize];
     for t in 0..threads {
-        let vi = r.below(5) as usize;
+        let vi = if mode == 0 { r.below(5) as usize } else if r.below(4) == 0 { r.below(5) as usize } else { focus_variant };
         let v = vs[vi].v();
         let a: Vec<u8> = (0..v.size()).map(|_| r.byte()).collect();
         let b: Vec<u8> = (0..v.size()).map(|_| r.byte()).collect();
         let data: Vec<u8> = (0..300 + r.below(500)).map(|_| r.byte()).collect();
-        jobs.push((t, vi, r.below(4), a, b, data, r.below(2000)));
+        let what = match mode {
+            0 => r.below(4),
+            1 => 0,
+            2 => 1,
+            _ => 2 + r.below(2),
+        };
+        jobs.push((t, vi, what, a, b, data, r.below(2000)));
     }
     let failures = std::sync::Mutex::new(Vec::<String>::new());
     std::thread::scope(|s| {
